@@ -125,7 +125,7 @@ Section Reader.
 
   (** [read_bitmap]: returns the new max_pfn and the regions *)
   Definition read_bitmap (pgsz sub_hdr_size bitmap_blocks fidx start_pfn end_pfn max_pfn : N)
-    : N * list pfn_region :=
+    : res (N * list pfn_region) :=
     let off := (1 + sub_hdr_size) * pgsz in
     let descoff := off + bitmap_blocks * pgsz in
     let bitmapsize := bitmap_blocks * pgsz in
@@ -137,7 +137,11 @@ Section Reader.
     let max_pfn := if max_bitmap_pfn <? max_pfn then max_bitmap_pfn else max_pfn in
     let bm := rd fidx off bitmapsize in
     let lim := if end_pfn <? max_bitmap_pfn then end_pfn else max_bitmap_pfn in
-    (max_pfn, regions_from_bitmap false bm start_pfn lim descoff PAGE_DESC_SIZE).
+    (* pfn_regions_from_bitmap on the chunk: the word-level scanners of pfn.c *)
+    match regions_of false (off mod 4) bm start_pfn lim descoff PAGE_DESC_SIZE with
+    | Err e => Err e
+    | Ok rgns => Ok (max_pfn, rgns)
+    end.
 
   (** the per-file loop of [do_header_32/64] *)
   Fixpoint do_files (be is64 : bool) (version : N) (nfiles : nat) (fidx : N)
@@ -160,11 +164,13 @@ Section Reader.
             else
             let '(s, e, max_pfn) :=
               read_sub_hdr be is64 version pgsz sub_hdr_blocks fidx max_pfn in
-            let '(max_pfn, rgns) :=
-              read_bitmap pgsz sub_hdr_blocks bitmap_blocks fidx s e max_pfn in
-            do_files be is64 version k (fidx + 1)
-                     ({| pm_fidx := fidx; pm_start := s; pm_end := e; pm_regions := rgns |} :: acc)
-                     pgsz max_pfn
+            match read_bitmap pgsz sub_hdr_blocks bitmap_blocks fidx s e max_pfn with
+            | Err err => Err err
+            | Ok (max_pfn, rgns) =>
+                do_files be is64 version k (fidx + 1)
+                         ({| pm_fidx := fidx; pm_start := s; pm_end := e; pm_regions := rgns |} :: acc)
+                         pgsz max_pfn
+            end
         end
     end.
 
